@@ -231,7 +231,7 @@ func TestKnown(t *testing.T)  { kit.RunKnown(t) }
 func TestReplay(t *testing.T) { kit.RunReplay(t) }
 
 func TestSafeSoup(t *testing.T) {
-	kit.Rapid(t, "soup", 200000, 2500000, func(t *rapid.T) {
+	kit.Rapid(t, "soup", 200000, 10000000, func(t *rapid.T) {
 		cfg := gen.DrawConfig(t, gen.ConfigOpts{SafeOnly: true})
 		var src []byte
 		var class string
@@ -245,7 +245,7 @@ func TestSafeSoup(t *testing.T) {
 }
 
 func TestSafeAttack(t *testing.T) {
-	kit.Rapid(t, "attack", 200000, 2500000, func(t *rapid.T) {
+	kit.Rapid(t, "attack", 200000, 10000000, func(t *rapid.T) {
 		cfg := gen.DrawConfig(t, gen.ConfigOpts{SafeOnly: true})
 		if rapid.Bool().Draw(t, "forceattr") {
 			cfg.Attr = true
